@@ -85,6 +85,10 @@ def sched(ctx, n, name="race"):
             if len(ctx.samples) < 16 and ctx.kinds["sched:script"] % 200 == 1:
                 ctx.samples.append({"area": "sched", "op": l[:200], "impl": o[:160], "model": v})
             continue
+        if v.startswith("inconclusive"):   # the model's exploration was cut short: neither a pass nor a finding
+            ctx.tags["sched-inconclusive"] = ctx.tags.get("sched-inconclusive", 0) + 1
+            ctx.extra["sched_inconclusive"] = ctx.extra.get("sched_inconclusive", 0) + 1
+            continue
         bad += 1
         if bad <= 3:
             rep = {"property": ctx.id, "kind": "forced-schedule", "area": "sched", "harness": name, "ops": [l],
